@@ -39,7 +39,11 @@ def load_reviewed():
 def panic_rule(ctx, rep, rule, facts, root_pred, void_rules=(), only=None):
     """Evaluate the inventory for every function reachable from the entry set.
     void_rules: names of `discharged_by` rules that FAILED in this run -> entries relying on them are void."""
+    facts = getattr(facts, "orig", facts)   # the inventory is taken on the original bodies (keys name the function a site is written in)
     reviewed = load_reviewed()
+    by_suffix = {}
+    for k_, e_ in reviewed.items():
+        by_suffix.setdefault(k_.split("|", 1)[1], []).append(e_)
     summaries = const_return_summaries(facts)
     roots = [f.path for f in facts.fns if root_pred(f)]
     reach, parent = facts.reachable_from(roots)
@@ -63,8 +67,14 @@ def panic_rule(ctx, rep, rule, facts, root_pred, void_rules=(), only=None):
                 rep.ok(rule, s.key, where, "%s: %s" % (cls, why), trivial=(cls == "interval"), cls=cls)
                 continue
             ent = reviewed.get(s.key)
+            if ent is None:
+                # the site may have moved into another function (helper extraction / inlining): same kind and operand
+                # signature, unique in the table
+                cands = by_suffix.get(s.key.split("|", 1)[1].split("#")[0], [])
+                if len(cands) == 1 and cands[0]["key"] not in used:
+                    ent = cands[0]
             if ent is not None:
-                used.add(s.key)
+                used.add(ent["key"])
                 by = ent.get("discharged_by")
                 if by and by in void_rules:
                     rep.violation(rule, s.key, where,
